@@ -913,6 +913,17 @@ func returnsOf(fn *ssa.Function) []*ssa.Return {
 
 // valueOrigins walks backward from v through phis, local cells, wrappers and Extracts and calls f on
 // each root (a value that is not one of those forwarding forms). Flow-sensitive for cells.
+// gOriginsLocal: valueOrigins stays inside the function (a rule that classifies how a helper passes its
+// own parameter on needs the parameter itself, not the arguments of the helper's call sites).
+var gOriginsLocal bool
+
+func valueOriginsLocal(fn *ssa.Function, v ssa.Value, f func(root ssa.Value)) {
+	old := gOriginsLocal
+	gOriginsLocal = true
+	defer func() { gOriginsLocal = old }()
+	valueOrigins(fn, v, f)
+}
+
 func valueOrigins(fn *ssa.Function, v ssa.Value, f func(root ssa.Value)) {
 	seen := map[ssa.Value]bool{}
 	var rec func(x ssa.Value)
@@ -967,7 +978,7 @@ func valueOrigins(fn *ssa.Function, v ssa.Value, f func(root ssa.Value)) {
 		case *ssa.Parameter:
 			// a parameter of a helper the reference tree does not have stands for the arguments of its
 			// call sites (canon.go)
-			if h := y.Parent(); h != nil && h.Parent() == nil && gNewFuncs[h] && len(gCallSitesOf[h]) > 0 {
+			if h := y.Parent(); !gOriginsLocal && h != nil && h.Parent() == nil && gNewFuncs[h] && len(gCallSitesOf[h]) > 0 {
 				idx := -1
 				for i, q := range h.Params {
 					if q == y {
